@@ -12,7 +12,7 @@ Definition r_payload : bytes := session_plain 1000 r_wid_bytes ex_sid 1100.
 Definition r_tbl : list aead_row := [(ex_key, compute_aad (ident_of ex_alice), ex_nonce, ex_body, r_payload)].
 Definition r_texts : list (bytes * list N) := [(r_wid_bytes, r_wid)].     (* what Python's utf-8 decoder answers *)
 Definition r_run (codec : sid_codec) (wid : list N) (now : Z) (st : cstep) :=
-  run_case r_tbl r_texts codec (((ex_key, wid), ex_reg), now, ex_alice, st).
+  run_case r_tbl r_texts codec ((((ex_key, wid), 300000%Z), ex_reg), now, ex_alice, st).
 
 Lemma r_encoding : utf8_encode r_wid = Some r_wid_bytes.
 Proof. vm_compute; reflexivity. Qed.
@@ -22,8 +22,8 @@ Proof. vm_compute; reflexivity. Qed.
 Lemma C25_nonascii_worker_rejects_own_token_refuted :
   exists wid now hdr,
     utf8_encode wid = Some r_wid_bytes /\
-    run_case r_tbl r_texts AsciiReplace (((ex_key, wid), ex_reg), now, ex_alice, SCall (Some hdr) false) = ([1;3;0;0], ex_reg) /\
-    run_case r_tbl r_texts AsciiReplace (((ex_key, wid), ex_reg), now, ex_alice, SDelete (Some hdr)) = ([2;200;0;0], ex_reg).
+    run_case r_tbl r_texts AsciiReplace ((((ex_key, wid), 300000%Z), ex_reg), now, ex_alice, SCall (Some hdr) false) = ([1;3;0;0], ex_reg) /\
+    run_case r_tbl r_texts AsciiReplace ((((ex_key, wid), 300000%Z), ex_reg), now, ex_alice, SDelete (Some hdr)) = ([2;200;0;0], ex_reg).
 Proof. exists r_wid, 1050%Z, ex_txt. vm_compute. repeat split; reflexivity. Qed.
 
 (* ... while with .decode("utf-8", errors="replace") the same presentation is resumed / closed *)
